@@ -460,6 +460,19 @@ func ruleR06c(c *Ctx) {
 				continue
 			}
 			ast.Inspect(od.Body, func(x ast.Node) bool {
+				// handed to a lookup helper: lookupTemplate(r.sourceByTemplateName, name)
+				if call, ok := x.(*ast.CallExpr); ok {
+					for _, a := range call.Args {
+						if fsel, ok := ast.Unparen(a).(*ast.SelectorExpr); ok {
+							if fv, ok := info.Uses[fsel.Sel].(*types.Var); ok && fv.IsField() {
+								if _, ok := fv.Type().Underlying().(*types.Map); ok {
+									lookedUp[fv] = true
+								}
+							}
+						}
+					}
+					return true
+				}
 				ix, ok := x.(*ast.IndexExpr)
 				if !ok {
 					return true
